@@ -169,6 +169,10 @@ def check_case(case, res=None):
             if not isinstance(e, Move):
                 src_count[id(e.source)] += 1
                 tgt_count[id(e.target)] += 1
+    move_count = Counter(id(e.source) for e in full if isinstance(e, Move))
+    if any(v > 1 for v in move_count.values()):
+        n = next(e.source for e in full if isinstance(e, Move) and move_count[id(e.source)] > 1)
+        fails.append(("node-moved-twice", f"{label}: {type(n).__name__} {_s(n)!r} x{move_count[id(n)]}"))
     bad_s = [n for n in sn if src_count[id(n)] != 1]
     bad_t = [n for n in tn if tgt_count[id(n)] != 1]
     if bad_s:
